@@ -1296,8 +1296,16 @@ impl MapRun {
 /// run one sequential map case with the given oracles
 pub fn run_map_case(case: &SeqCase, or: Oracles) -> Result<Stats, Fail> {
     ledger_reset();
+    let _ = take_dead_touch();
     let mut r = MapRun::new(case.cfg.clone(), or);
     let res = r.run(&case.ops);
+    if res.is_ok() {
+        if let Some(m) = take_dead_touch() {
+            let step = r.step;
+            let _ = catch_unwind(AssertUnwindSafe(move || drop(r)));
+            return Err(Fail { prop: "C03", step, msg: m });
+        }
+    }
     match res {
         Ok(()) => r.finish(),
         Err(f) => {
